@@ -1664,7 +1664,7 @@ def plss_walk(case):
     try:
         d = plss_make(a)
     except Exception as e:  # noqa
-        return {"exc": type(e).__name__, "lay": "?", "tracts": [], "unused": [], "eflags": []}
+        return {"exc": type(e).__name__, "lay": "?", "tracts": [], "unused": [], "eflags": [], "wflags": []}
     tr_by_short = {R.tr_short(v): v for v in (1, 2, 3, 4)}
     num2tok = {int(k): v for k, v in a["num2tok"].items()}
     marks = a.get("markers") or []
@@ -1690,5 +1690,19 @@ def plss_walk(case):
             kinds.append("unused_sec")
         else:
             kinds.append(f)
-    return {"exc": "none", "lay": d.current_layout, "tracts": tracts, "unused": unused, "eflags": kinds,
-            "raw": [(t.trs, (t.desc or "")[:50]) for t in d.tracts][:8], "raw_e": [str(f)[:50] for f in d.e_flags][:8]}
+    # warning flags by kind; sec_within<trs> once per section token (a list of sections is one rebuilt component)
+    wkinds, sw_tokens = [], set()
+    for f in d.w_flags:
+        if not isinstance(f, str):
+            wkinds.append("?")
+        elif f.startswith("sec_within<"):
+            trs = f[len("sec_within<"):-1]
+            for t, proj in zip(d.tracts, tracts):
+                if t.trs == trs:
+                    sw_tokens.add((proj["tr"], proj["sec"]))
+        else:
+            wkinds.append(f.split("<", 1)[0])
+    wkinds += ["sec_within"] * len(sw_tokens)
+    return {"exc": "none", "lay": d.current_layout, "tracts": tracts, "unused": unused, "eflags": kinds, "wflags": wkinds,
+            "raw": [(t.trs, (t.desc or "")[:50]) for t in d.tracts][:8], "raw_e": [str(f)[:50] for f in d.e_flags][:8],
+            "raw_w": [str(f)[:50] for f in d.w_flags][:8]}
